@@ -663,7 +663,7 @@ Fixpoint in_domain (v : value) {struct v} : bool :=
   | VInt z => in_int64 z && negb (Z.eqb z min_int64)
   | VFloat f => float_in_domain f
   | VBool _ | VNil => true
-  | VStr s => quote_in_domain s
+  | VStr s => quote_in_domain s && forallb (fun c => c <? 256) s
   | VArr l => forallb in_domain l
   | VMap l =>
     keys_sorted l &&
@@ -676,14 +676,15 @@ Fixpoint in_domain (v : value) {struct v} : bool :=
   | VTxt _ _ => false
   end.
 
-(* the float-free part, for which the round trip is proved for every value *)
-Fixpoint no_float (v : value) {struct v} : bool :=
+(* the part without finite floats (infinities and NaN are allowed: they print as identifiers), for which the
+   round trip is proved for every value *)
+Fixpoint no_finite_float (v : value) {struct v} : bool :=
   match v with
-  | VFloat _ => false
-  | VArr l => forallb no_float l
+  | VFloat (FFin _ _ _) => false
+  | VArr l => forallb no_finite_float l
   | VMap l =>
     (fix go (ps : list (value * value)) : bool :=
-       match ps with [] => true | (k, x) :: r => no_float k && no_float x && go r end) l
+       match ps with [] => true | (k, x) :: r => no_finite_float k && no_finite_float x && go r end) l
   | VTxt _ _ => false
   | _ => true
   end.
@@ -695,4 +696,34 @@ Definition good_name (k : bytes) : bool :=
   | c :: r => isLetter c && forallb IsAlphaNum r && Z.eqb (lookup_ident k) token_IDENT
   end.
 
-Definition value_eqb_by_text (a b : value) : bool := beqb (inspect a) (inspect b).
+(* structural equality of values *)
+Fixpoint value_eqb (a b : value) {struct a} : bool :=
+  match a, b with
+  | VInt x, VInt y => Z.eqb x y
+  | VFloat x, VFloat y => fl_eqb x y
+  | VBool x, VBool y => Bool.eqb x y
+  | VNil, VNil => true
+  | VStr x, VStr y => beqb x y
+  | VArr x, VArr y =>
+    (fix go (l m : list value) {struct l} : bool :=
+       match l, m with
+       | [], [] => true
+       | p :: l', q :: m' => value_eqb p q && go l' m'
+       | _, _ => false
+       end) x y
+  | VMap x, VMap y =>
+    (fix go (l m : list (value * value)) {struct l} : bool :=
+       match l, m with
+       | [], [] => true
+       | (k, v) :: l', (k', v') :: m' => value_eqb k k' && value_eqb v v' && go l' m'
+       | _, _ => false
+       end) x y
+  | _, _ => false
+  end.
+
+(* does the saved line of v, read back with the model's own number conversion, bind k to v again? *)
+Definition reads_back (k : bytes) (v : value) : bool :=
+  match read_back_dec (save_line k v) with
+  | RbBinding k' v' => beqb k k' && value_eqb v v'
+  | _ => false
+  end.
